@@ -784,14 +784,7 @@ func runSequence(res *core.Result, r *rand.Rand, ids []*m.Address, keyPrefix str
 	}
 }
 
-func parallel(n int, fn func(w int)) {
-	var wg sync.WaitGroup
-	for w := 0; w < n; w++ {
-		wg.Add(1)
-		go func(w int) { defer wg.Done(); fn(w) }(w)
-	}
-	wg.Wait()
-}
+func parallel(n int, fn func(w int)) { core.Parallel(n, fn) }
 
 func run(c *core.Ctx) {
 	res := c.Res
